@@ -65,8 +65,9 @@ CLAIMS = {
             "translator and the incremental path use the same strict alive boundary (expiry > now) on event_time + width, "
             "renewal re-seeds exactly when the new expiry is later, carried expiries combine with max, both materialisers "
             "translate the same (sds, dict, now), and the expiry semiring is exactly (max, min, 0, +inf). Equality of the two "
-            "fixpoints over all histories is not decided.",
-            "MIR comparison normal forms (T-GUARD), sibling agreement, exact-body checks of semiring operations"),
+            "fixpoints over all histories is not decided. Also decides the re-trigger discipline of the provenance round: a "
+            "known fact whose tag improved is queued for the next delta unconditionally and the round reports a change.",
+            "MIR comparison normal forms (T-GUARD), sibling agreement, exact-body checks of semiring operations, control dependence"),
     "C08": ("DESIGN.md §4 C08",
             "Decides that every Alert/NoAlert placed in a certified result is control-dependent on the threshold test of the "
             "very bound it is published with (probability, interval lower/upper), that from the failure edge of every "
@@ -79,13 +80,17 @@ CLAIMS = {
             "covering evict, load, materialise and query (dominated by the acquisition, not reachable from the release), their "
             "order, completeness of the evict/load loops before materialisation, bookkeeping of everything loaded or derived "
             "for the next eviction, and that previous-firing state cannot delete current-firing content (defect fixed: the "
-            "loader untracks). The R2S operators' set algebra and cross-mode sequence equality are not decided.",
-            "MIR critical-section containment, T-ORDER reachability, T-PAIR within loop bodies, sibling impl checks by trait"),
+            "loader untracks). Also: the engine-level lock-nesting graph is acyclic with no blocking receive under a guard, "
+            "and the stateful relation-to-stream arms replace their last-result memory with the current answer on every path. "
+            "The R2S operators' set algebra and cross-mode sequence equality are not decided.",
+            "MIR critical-section containment, T-ORDER reachability, T-PAIR within loop bodies, sibling impl checks by trait, "
+            "lock-order graph with callee summaries"),
     "C11": ("DESIGN.md §4 C11",
             "Decides store ownership: the static store is written only by the static-data API, is never captured by a window "
             "processor, and the static plan runs only against it; the window store is loaded/evicted only by the window "
             "processor; and the store a window plan is executed against must be owned by that window - on the pinned tree all "
-            "windows share one store (confirmed known finding; the external-bucket sibling is the conforming instance). The "
+            "windows share one store (confirmed known finding; the external-bucket sibling is the conforming instance). Also "
+            "decides that natural_join merges two rows only after comparing every shared variable. The "
             "synchronisation policies' emission schedule is not decided.",
             "MIR closure-capture provenance, who-may-call over trait methods, loop placement of store creation"),
     "C02": ("DESIGN.md §4 C02",
